@@ -310,7 +310,7 @@ def partitions(tier, seed):
                       bound='tag D: 13 scales x 6 unscaled values incl. the 32-bit extremes (concrete), arbitrary '
                             'trailing octets', rep={'t': trep}))
     parts.append(Part('tag_S_x', [('s', 'str'), ('raw', 'bytes')] + T,
-                      ['len(s) <= %d' % (1 if q else 2), 'len(raw) == 2'] + TP, T_STR, PRE, 280 if q else 900,
+                      ['len(s) <= %d' % (1 if q else 2), 'len(raw) == 2'] + TP, T_STR, PRE, 280 if q else 480,
                       family='tag_value', bound='tags S and x: text, 2 arbitrary octets (valid or invalid UTF-8)',
                       rep={'s': 'é', 'raw': {'__bytes__': 'ff41'}, 't': trep}))
     parts.append(Part('tag_T', [('v', 'bytes')] + T, ['len(v) == 8'] + TP, T_TS, PRE, 200, family='tag_value',
@@ -340,7 +340,7 @@ def partitions(tier, seed):
             parts.append(_method_part(m, 1, 200, 'a'))
             parts.append(_method_part(m, 1, 200, 'b'))
         else:
-            parts.append(_method_part(m, 1 if q else 2, 200 if q else 900))
+            parts.append(_method_part(m, 1 if q else 2, 200 if q else 480))
     tw = Part('twin_tag_u', [('v', 'bytes')] + T, ['len(v) == 2'] + TP,
               (T_INT % {'w': 2, 'tag': ord('u'), 'signed': False, 'tagL': False}).replace(
                   'return ok and type(got) is int and got == want', 'return not (ok and got == want)'),
